@@ -140,6 +140,10 @@ Theorem code_Color_RGBA : forall c, wf_gcolor c -> go_ivg_Color_RGBA c = color_r
 Proof. exact GenEqColor.go_Color_RGBA_eq. Qed.
 Print Assumptions code_Color_RGBA.
 
+Theorem code_Color_Is1 : forall c, wf_gcolor c -> go_ivg_Color_Is1 c = color_is1 (abs_color c).
+Proof. exact GenEqColor.go_Color_Is1_eq. Qed.
+Print Assumptions code_Color_Is1.
+
 Theorem code_Resolve : forall fuel c pal creg, wf_gcolor c -> wf_regs pal -> wf_regs creg ->
   go_ivg_Color_Resolve (S (S fuel)) c pal creg = resolve pal creg (abs_color c).
 Proof. exact GenEqColor.go_Resolve_eq. Qed.
